@@ -41,10 +41,45 @@ def vevent(uid, dtstart, rules, until=None, rdates=None, tzid=None):
         l[-1] = "DTSTART;TZID=%s:%s" % (tzid, dtstart.strftime("%Y%m%dT%H%M%S"))
     for r in rules:
         l.append("RRULE:" + rfc5545.rule_text(r))
-    if rdates:
-        l.append(("RDATE;VALUE=DATE:" if is_date else "RDATE:") + ",".join(fmt(x) for x in rdates))
+    for line in rdates or []:
+        l.append(line)
     l.append("END:VEVENT")
     return "\n".join(l)
+
+
+def rdate_lines(rng, dt, is_date, tzid):
+    """1..3 RDATE lines of 1..4 values each, in shuffled order; a timed event's lines are written in UTC form, with a
+    TZID of their own, or as dates (which take DTSTART's time of day), so that one event can mix the forms"""
+    from .C02 import in_zone, OTHER_ZONES
+    lines = []
+    for _ in range(rng.choice([1, 1, 2, 3])):
+        vals = list({dt + D.timedelta(days=rng.randint(1, 60), **({} if is_date else {"hours": rng.choice([0, 0, 1, 5, 11, 13])}))
+                     for _ in range(rng.randint(1, 4))})
+        rng.shuffle(vals)
+        if is_date:
+            lines.append("RDATE;VALUE=DATE:" + ",".join(fmt(x) for x in vals))
+            continue
+        form = rng.choice(["utc", "utc", "zone", "date"])
+        if form == "zone":
+            zone = rng.choice([z for z in OTHER_ZONES if z != tzid])
+            loc = in_zone(vals, zone)
+            if loc is not None:
+                lines.append("RDATE;TZID=%s:%s" % (zone, ",".join(x.strftime("%Y%m%dT%H%M%S") for x in loc)))
+                continue
+        if form == "date":
+            lines.append("RDATE;VALUE=DATE:" + ",".join(sorted({x.strftime("%Y%m%d") for x in vals}, key=lambda _: rng.random())))
+            continue
+        lines.append("RDATE:" + ",".join(fmt(x) for x in vals))
+    return lines
+
+
+def split_rdates(lines):
+    """every value of every RDATE line as a line of its own"""
+    out = []
+    for l in lines or []:
+        head, vals = l.rsplit(":", 1)
+        out += [head + ":" + v for v in vals.split(",")]
+    return out
 
 
 def vcal(events):
@@ -82,9 +117,7 @@ def gen_mux(rng):
                     import zoneinfo
                     loc = r["until"].replace(tzinfo=zoneinfo.ZoneInfo(tzid))
                     r["until"] = loc.astimezone(D.timezone.utc).replace(tzinfo=None)
-        rd = None
-        if rng.random() < 0.2:
-            rd = sorted({dt + D.timedelta(days=rng.randint(1, 60)) for _ in range(rng.randint(1, 4))})
+        rd = rdate_lines(rng, dt, is_date, tzid) if rng.random() < 0.3 else None
         evs.append(("u%d@verif" % i, dt, rules, rd, tzid))
     text = vcal([vevent(u, dt, rules, rdates=rd, tzid=tz) for (u, dt, rules, rd, tz) in evs])
     return text, evs, (is_date if not mixed else None)
@@ -171,9 +204,15 @@ def run_case(srv, part, rng, tier):
     # the constituents: every event, and within an event every RRULE (an event with several rules is a merge itself)
     parts = []
     for (u, dt, rules, rd, tz) in evs:
-        if len(rules) >= 2:
-            parts.append((u, dt, rules[:1], rd, tz))
-            parts += [(u, dt, [r], None, tz) for r in rules[1:]]
+        # ... and every RDATE value (an event whose RDATE lines differ in form is a merge as well)
+        one = split_rdates(rd)
+        if len(rules) + len(one) >= 2:
+            parts += [(u, dt, [r], None, tz) for r in rules]
+            parts += [(u, dt, [], [v], tz) for v in one]
+            if len(one) > 1:
+                part.count("events_with_several_rdates")
+            if len({v.split(":")[0] for v in one}) > 1:
+                part.count("events_mixing_rdate_forms")
         else:
             parts.append((u, dt, rules, rd, tz))
     for (u, dt, rules, rd, tz) in parts:
